@@ -1,6 +1,7 @@
 package main
 
 import (
+	"strconv"
 	"fmt"
 	"go/token"
 	"go/types"
@@ -143,8 +144,16 @@ func (f *Frame) callSiteClauses(b *ssa.BasicBlock, in *ssa.Call, callee *ssa.Fun
 	if sp == nil || len(sp.CallSites) == 0 {
 		return
 	}
+	siteOrd := f.callSiteN("csord:" + funcDisplay(callee)) // this is the siteOrd-th call of callee met in the function
 	for _, cs := range sp.CallSites {
-		if cs.Callee != funcDisplay(callee) {
+		name, want := cs.Callee, 0
+		if i := strings.LastIndex(name, "#"); i > 0 {
+			// CALLEE#N: only the N-th call of CALLEE (in the order the calls are met along the control flow graph)
+			if n, err := strconv.Atoi(name[i+1:]); err == nil {
+				name, want = name[:i], n
+			}
+		}
+		if name != funcDisplay(callee) || (want != 0 && want != siteOrd) {
 			continue
 		}
 		cs.Seen = true
@@ -207,8 +216,11 @@ func (f *Frame) callStatic(b *ssa.BasicBlock, in *ssa.Call, callee *ssa.Function
 				_ = pt
 				if isCoreShared(p.Type()) {
 					for k, lo := range top.lockObjs {
-						f.oblige("lock", f.oblName(fmt.Sprintf("%s:table-use@%s#%d.%d", funcDisplay(f.fn), funcDisplay(callee), f.callSite(callee), k+1)), g, not(eq(f.loadLV(st, lo), "0")),
-							"a core table reached through the client is used only while the client mutex is held", []string{"C11"}, posOf(in))
+						need, why := not(eq(f.loadLV(st, lo), "0")), "a core table reached through the client is used only while the client mutex is held"
+						if needsWriteLock(e.prog, callee) {
+							need, why = eq(f.loadLV(st, lo), "1"), "a core function that writes table or index state is called only while the client mutex is held for writing"
+						}
+						f.oblige("lock", f.oblName(fmt.Sprintf("%s:table-use@%s#%d.%d", funcDisplay(f.fn), funcDisplay(callee), f.callSite(callee), k+1)), g, need, why, []string{"C11"}, posOf(in))
 					}
 					break
 				}
@@ -932,7 +944,59 @@ func (f *Frame) mutexHeld(lv *LVal) *LVal {
 	n := *lv
 	n.Path = append(append([]step{}, lv.Path...), step{structT: mt, field: 0})
 	n.T = st.Field(0).Type()
+	// sync.RWMutex{w Mutex; ...}: the flag is the state word of the embedded mutex
+	for {
+		inner, ok := isStruct(n.T)
+		if !ok || inner.NumFields() == 0 {
+			break
+		}
+		n.Path = append(n.Path, step{structT: n.T, field: 0})
+		n.T = inner.Field(0).Type()
+	}
 	return &n
+}
+
+// needsWriteLock: does the function write objects that existed before the call (anything but what it allocates itself)
+func needsWriteLock(prog *ssa.Program, callee *ssa.Function) bool {
+	return len(mayWriteOldKeys(prog, callee)) > 0
+}
+
+// usedForWrite: is the address (of a guarded field) stored through, or is the map / slice loaded from it updated
+func usedForWrite(v ssa.Value) bool {
+	refs := v.Referrers()
+	if refs == nil {
+		return false
+	}
+	for _, r := range *refs {
+		switch r := r.(type) {
+		case *ssa.Store:
+			if r.Addr == v {
+				return true
+			}
+		case *ssa.UnOp:
+			if r.Op == token.MUL {
+				if rr := r.Referrers(); rr != nil {
+					for _, u := range *rr {
+						switch u := u.(type) {
+						case *ssa.MapUpdate:
+							if u.Map == r {
+								return true
+							}
+						case *ssa.Call:
+							if bi, ok := u.Call.Value.(*ssa.Builtin); ok && bi.Name() == "delete" && len(u.Call.Args) > 0 && u.Call.Args[0] == r {
+								return true
+							}
+						}
+					}
+				}
+			}
+		case *ssa.FieldAddr:
+			if usedForWrite(r) {
+				return true
+			}
+		}
+	}
+	return false
 }
 
 type pureTerm struct {
